@@ -514,3 +514,318 @@ func c14gSaltCache(c *eng.Ctx) {
 	c.Cut(f, "cache fill with a salt created through the caller's storage", fills,
 		eng.Or(eng.G(f, `\.\(logical\.Transaction\)#1$`, false), eng.G(f, `^salt\.\(\*Salt\)\.DidGenerate\(\)$`, false)), nil)
 }
+
+// ---------------------------------------------------------------------------
+// ROBUST: a local closure that is only ever invoked directly and whose body is
+// exactly one call returning that call's results stands for that call at its
+// call site (persist := func() error { return b.writeKeyMetadata(...) }; err = persist()).
+
+type c14Fwd struct {
+	site  *ssa.Call     // the call of the closure in the enclosing function
+	inner *ssa.Call     // the one call the closure makes
+	cl    *ssa.Function // the closure
+	// inner's arguments (receiver first for an invoke) as values of the enclosing
+	// function: a constant/global, the argument passed at the site, or — for a
+	// captured variable — the variable's cell (*ssa.Alloc); nil where unresolved
+	args []ssa.Value
+}
+
+// c14OnlyCalled: every use of the closure value is a direct call of it.
+func c14OnlyCalled(mc *ssa.MakeClosure) bool {
+	onlyCallee := func(v ssa.Value) bool {
+		if v.Referrers() == nil {
+			return false
+		}
+		for _, r := range *v.Referrers() {
+			switch x := r.(type) {
+			case *ssa.DebugRef:
+			case *ssa.Call:
+				if x.Call.Value != v {
+					return false
+				}
+				for _, a := range x.Call.Args {
+					if a == v {
+						return false
+					}
+				}
+			default:
+				return false
+			}
+		}
+		return true
+	}
+	if mc.Referrers() == nil {
+		return false
+	}
+	for _, r := range *mc.Referrers() {
+		switch x := r.(type) {
+		case *ssa.DebugRef:
+		case *ssa.Call:
+			if x.Call.Value != ssa.Value(mc) {
+				return false
+			}
+		case *ssa.Store:
+			cell, ok := x.Addr.(*ssa.Alloc)
+			if !ok || x.Val != ssa.Value(mc) || cell.Referrers() == nil {
+				return false
+			}
+			for _, cr := range *cell.Referrers() {
+				switch y := cr.(type) {
+				case *ssa.Store, *ssa.DebugRef:
+				case *ssa.UnOp:
+					if !onlyCallee(y) {
+						return false
+					}
+				default:
+					return false
+				}
+			}
+		default:
+			return false
+		}
+	}
+	return true
+}
+
+func c14Forwards(f *ssa.Function) []c14Fwd {
+	var out []c14Fwd
+	for _, b := range f.Blocks {
+		for _, in := range b.Instrs {
+			site, ok := in.(*ssa.Call)
+			if !ok || site.Call.IsInvoke() {
+				continue
+			}
+			cl, mc := nfFuncValue(site.Call.Value)
+			if cl == nil || mc == nil || cl.Parent() != f || len(cl.Blocks) != 1 || !c14OnlyCalled(mc) {
+				continue
+			}
+			var inner *ssa.Call
+			var ret *ssa.Return
+			shape := true
+			for _, ci := range cl.Blocks[0].Instrs {
+				switch x := ci.(type) {
+				case *ssa.Call:
+					if inner != nil {
+						shape = false
+					}
+					inner = x
+				case *ssa.Return:
+					ret = x
+				case *ssa.UnOp:
+					if x.Op != token.MUL {
+						shape = false
+					}
+				case *ssa.Extract, *ssa.DebugRef, *ssa.MakeInterface, *ssa.ChangeInterface, *ssa.FieldAddr:
+				default:
+					shape = false
+				}
+			}
+			if !shape || inner == nil || ret == nil {
+				continue
+			}
+			// the closure returns exactly the call's results, in order
+			for i, r := range ret.Results {
+				if len(ret.Results) == 1 && r == ssa.Value(inner) {
+					continue
+				}
+				if e, isE := r.(*ssa.Extract); !isE || e.Tuple != ssa.Value(inner) || e.Index != i {
+					shape = false
+				}
+			}
+			if !shape || inner.Call.Signature().Results().Len() != len(ret.Results) {
+				continue
+			}
+			resolve := func(v ssa.Value) ssa.Value {
+				for {
+					switch x := v.(type) {
+					case *ssa.MakeInterface:
+						v = x.X
+						continue
+					case *ssa.ChangeInterface:
+						v = x.X
+						continue
+					}
+					break
+				}
+				switch x := v.(type) {
+				case *ssa.Const, *ssa.Global, *ssa.Function:
+					return v
+				case *ssa.Parameter:
+					for i, p := range cl.Params {
+						if p == x && i < len(site.Call.Args) {
+							return site.Call.Args[i]
+						}
+					}
+				case *ssa.UnOp:
+					if fv, isFV := x.X.(*ssa.FreeVar); isFV && x.Op == token.MUL {
+						for i, cfv := range cl.FreeVars {
+							if cfv == fv && i < len(mc.Bindings) {
+								if a, isA := mc.Bindings[i].(*ssa.Alloc); isA {
+									return a
+								}
+							}
+						}
+					}
+				}
+				return nil
+			}
+			fw := c14Fwd{site: site, inner: inner, cl: cl}
+			if inner.Call.IsInvoke() {
+				fw.args = append(fw.args, resolve(inner.Call.Value))
+			}
+			for _, a := range inner.Call.Args {
+				fw.args = append(fw.args, resolve(a))
+			}
+			out = append(out, fw)
+		}
+	}
+	return out
+}
+
+// c14CellOf: the variable cell a value is read from (a load of a local cell,
+// or the cell itself as produced by c14Forwards); nil for a plain SSA value.
+func c14CellOf(v ssa.Value) *ssa.Alloc {
+	if a, ok := v.(*ssa.Alloc); ok {
+		return a
+	}
+	if u, ok := v.(*ssa.UnOp); ok && u.Op == token.MUL {
+		if a, ok := u.X.(*ssa.Alloc); ok {
+			return a
+		}
+	}
+	return nil
+}
+
+// c14SameVar: x denotes the same value as m — the same SSA value, or a read of
+// the same variable cell (the caller checks that the cell is not reassigned in between).
+func c14SameVar(x, m ssa.Value) bool {
+	if x == m {
+		return true
+	}
+	cx, cm := c14CellOf(x), c14CellOf(m)
+	return cx != nil && cx == cm
+}
+
+// c14CellStores: the stores into the cell in its function; ok=false if a
+// capturing closure may write it or its address escapes.
+func c14CellStores(a *ssa.Alloc) (stores []ssa.Instruction, ok bool) {
+	if a.Referrers() == nil {
+		return nil, false
+	}
+	for _, r := range *a.Referrers() {
+		switch x := r.(type) {
+		case *ssa.Store:
+			if x.Addr != ssa.Value(a) {
+				return nil, false
+			}
+			stores = append(stores, x)
+		case *ssa.UnOp, *ssa.DebugRef:
+		case *ssa.MakeClosure:
+			fn, _ := x.Fn.(*ssa.Function)
+			if fn == nil {
+				return nil, false
+			}
+			for i, bnd := range x.Bindings {
+				if bnd != ssa.Value(a) || i >= len(fn.FreeVars) || fn.FreeVars[i].Referrers() == nil {
+					continue
+				}
+				for _, fr := range *fn.FreeVars[i].Referrers() {
+					switch fr.(type) {
+					case *ssa.UnOp, *ssa.DebugRef:
+					default:
+						return nil, false
+					}
+				}
+			}
+		default:
+			return nil, false
+		}
+	}
+	return stores, true
+}
+
+// c14CalleeWrites: the static callee (same package, body loaded) calls Put or
+// Delete directly on a storage parameter it was handed.
+func c14CalleeWrites(cc *ssa.CallCommon, st *types.Interface) bool {
+	g := cc.StaticCallee()
+	if g == nil || len(g.Blocks) == 0 || !eng.InPkg(g, "kv") {
+		return false
+	}
+	for _, cl := range eng.Calls(g, `^<logical\.Storage>\.(Put|Delete)$`) {
+		if p, ok := cl.Common().Value.(*ssa.Parameter); ok && c14IsStorage(p, st) {
+			return true
+		}
+	}
+	return false
+}
+
+// c14FollowedPut: the unique call in f of a function of the same package that
+// (1) calls Storage.Put exactly once, on a parameter, with an entry literal whose
+// Key is a parameter and whose Value is proto.Marshal(<parameter>)#0, and (2)
+// returns a nil error only behind that Put's success. Returns the call and the
+// arguments f passes for the key and for the marshalled object.
+func c14FollowedPut(f *ssa.Function) (site ssa.CallInstruction, key, obj ssa.Value) {
+	n := 0
+	for _, cl := range eng.Calls(f, `.`) {
+		if _, isCall := cl.(*ssa.Call); !isCall {
+			continue
+		}
+		cc := cl.Common()
+		g := cc.StaticCallee()
+		if g == nil || g.Pkg != f.Pkg || len(g.Blocks) == 0 || len(g.Params) != len(cc.Args) || g.Signature.Results().Len() != 1 {
+			continue
+		}
+		puts := eng.Calls(g, `^<logical\.Storage>\.Put$`)
+		if len(puts) != 1 {
+			continue
+		}
+		if _, onParam := puts[0].Common().Value.(*ssa.Parameter); !onParam {
+			continue
+		}
+		idx := func(v ssa.Value) int {
+			for i, p := range g.Params {
+				if ssa.Value(p) == v {
+					return i
+				}
+			}
+			return -1
+		}
+		a := puts[0].Common().Args
+		entry := a[len(a)-1]
+		ks, vs := eng.StructLitField(entry, "Key"), eng.StructLitField(entry, "Value")
+		if len(ks) != 1 || len(vs) != 1 {
+			continue
+		}
+		ki := idx(ks[0])
+		m := c14ExtractOf(vs[0], 0)
+		if ki < 0 || m == nil || !strings.HasSuffix(eng.CalleeName(&m.Call), "protobuf/proto.Marshal") {
+			continue
+		}
+		mo := m.Call.Args[0]
+		if mi, ok := mo.(*ssa.MakeInterface); ok {
+			mo = mi.X
+		}
+		vi := idx(mo)
+		if vi < 0 {
+			continue
+		}
+		// success only behind the Put
+		var succ []ssa.Instruction
+		for _, r := range eng.SuccessReturns(g, 0) {
+			// `return s.Put(...)` hands on the Put's own verdict
+			if pv, isV := puts[0].(ssa.Value); isV && r.(*ssa.Return).Results[0] == pv {
+				continue
+			}
+			succ = append(succ, r)
+		}
+		if len(succ) > 0 && eng.Reach(eng.Query{Fn: g, Blocked: eng.CallOKEdges(puts[0]), Target: eng.IsTarget(succ)}) != nil {
+			continue
+		}
+		n++
+		site, key, obj = cl, cc.Args[ki], cc.Args[vi]
+	}
+	if n != 1 {
+		return nil, nil, nil
+	}
+	return site, key, obj
+}
